@@ -90,11 +90,12 @@ func VerifC05eFormats(t, op, format, wiring int) {
 }
 
 func c05Run(t, op, where, wiring int, refOnly bool) {
-	// where: 0 none, 1 "where x > 3", 2 none but grouped by two fields (g,h), h possibly absent, 3 none but grouped by $line, 4 none but the aggregated field is assigned by "set $z = x"
+	// where: 0 none, 1 "where x > 3", 2 none but grouped by two fields (g,h), h possibly absent, 3 none but grouped by $line, 4 none but the aggregated field is assigned by "set $z = x", 5 none but the group value is a or the byte 0xAC
 	twoKeys := where == 2
 	byLine := where == 3 // grouped by $line: the group key is the whole line, field delimiters included
 	setZ := where == 4   // the aggregated field is $z, assigned from x by a set clause ("set $z = x")
-	if twoKeys || byLine || setZ {
+	acKey := where == 5  // the group value may be the byte 0xAC (the wire protocol's message delimiter)
+	if twoKeys || byLine || setZ || acKey {
 		where = 0
 	}
 	dlog.VerifInstall(source.Client)
@@ -123,7 +124,11 @@ func c05Run(t, op, where, wiring int, refOnly bool) {
 	var all, p0, p1 []string
 	for i := range lines {
 		l := &lines[i]
-		l.g = verifrt.ByteIn("g", "ab")
+		if acKey {
+			l.g = verifrt.ByteIn("g", "a\xac")
+		} else {
+			l.g = verifrt.ByteIn("g", "ab")
+		}
 		l.hasX = verifrt.Bool("hasx")
 		l.hasY = verifrt.Bool("hasy")
 		l.x = verifrt.ByteIn("x", "0123456789z")
@@ -207,6 +212,16 @@ func c05Run(t, op, where, wiring int, refOnly bool) {
 	if refOnly {
 	// independent reference: the query evaluated by hand over all lines
 		ref := reference(lines, where == 1, op)
+		if acKey {
+			if _, has := ref["\xac"]; has {
+				// known: the aggregate message of a group whose key contains the byte 0xAC is cut at
+				// that byte by the client (no escaping in the wire protocol): the group is lost
+				_, present := central["\xac"]
+				verifrt.Finding("C05-KF3", !present)
+				delete(ref, "\xac")
+				verifrt.Reach("delimiter-in-key")
+			}
+		}
 		verifrt.Assert(len(central) == len(ref), "central evaluation has different groups than the query denotes")
 		for key, r := range ref {
 			cs, ok := central[key]
